@@ -110,6 +110,14 @@ type FnCtx struct {
 	callN map[string]int
 	lets map[string]Val
 	inSpec int // >0 while a Go function is being evaluated inside a contract expression
+	mapRanges []mapRangeInfo
+}
+
+// mapRangeInfo: ghost enumeration of a map's key set for a `range` loop (k-th map range of the function:
+// invariants call its parts mapseq<k>, mapn<k>, mappos<k>)
+type mapRangeInfo struct {
+	seq, n, ghost, keySort string
+	keyType              types.Type
 }
 
 type panicSite struct {
@@ -178,6 +186,9 @@ func (fc *FnCtx) mergeStates(conds []string, sts []State, tag string) State {
 		out.ghosts[k] = fc.mergeTerm(conds, func(i int) string {
 			if v, ok := sts[i].ghosts[k]; ok {
 				return v
+			}
+			if strings.HasPrefix(k, "#") {
+				return "0" // engine-internal ghost (map range position) before its loop
 			}
 			init := "ghost0_" + k
 			if !fc.B.declared["ghost:"+k] {
